@@ -878,6 +878,11 @@ func genPure(pk map[string]*packages.Package) string {
 			if sp.recv != "" {
 				key = sp.pkg + "." + sp.recv + "." + sp.name
 			}
+			if sp.recv == "" && t.known[sp.name] {
+				// already emitted on demand, ahead of an earlier caller
+				rep.Translated = append(rep.Translated, key)
+				continue
+			}
 			fd := findFunc(p, sp.recv, sp.name)
 			if fd == nil {
 				rep.Opaque[key] = "function not found"
